@@ -21,8 +21,10 @@ def check(run):
     recs = ic.emit(run, 'Inject C04 emission (exhaustive)', 'Inject_c04_emit_small.cfg', 0, 0, 4000 if quick else 40000, bfs=True)
     recs2 = ic.emit(run, 'Inject C04 emission (simulate)', 'Inject_c04_emit.cfg', 300 if quick else 6000, 16,
                     2500 if quick else 40000, seed_off=3)
+    recs3 = ic.emit(run, 'Inject C04 emission (exhaustive, a LATER function of a middleware is malformed)',
+                    'Inject_c04_emit_later.cfg', 0, 0, 300 if quick else 5000, seed_off=4, bfs=True)
     opts = {'mode': 'C01', 'kwonly': True, 'posonly': False, 'carriers': True}
-    res = ic.replay_records(run, recs + recs2, opts, [0, 1], run.seed, 'c04')
+    res = ic.replay_records(run, recs + recs2 + recs3, opts, [0, 1], run.seed, 'c04')
 
     def nontrivial(rec):
         return rec['conflict'] or rec['bad']['k'] != 'none'
